@@ -8,15 +8,27 @@ use num_traits::{sign::Signed, One, ToPrimitive, Zero};
 use serde_derive::{Deserialize, Serialize};
 use std::cmp::Ord;
 use std::fmt;
+use std::hash::{Hash, Hasher};
 use std::ops::{Add, Div, Mul, Neg, Rem, Sub};
 
 use crate::output::Digits;
 
 use super::BigInt;
 
-#[derive(Clone, Debug, PartialEq, Eq, PartialOrd, Ord, Serialize, Deserialize, Hash)]
+#[derive(Clone, Debug, PartialEq, Eq, PartialOrd, Ord, Serialize, Deserialize)]
 pub struct BigRat {
     inner: NumRat,
+}
+
+// The hash of num-rational walks the continued fraction of the value
+// recursively, one stack frame per term, which overflows the stack for
+// values with thousands of digits. The value is always kept in lowest
+// terms here, so numerator and denominator identify it.
+impl Hash for BigRat {
+    fn hash<H: Hasher>(&self, state: &mut H) {
+        self.inner.numer().hash(state);
+        self.inner.denom().hash(state);
+    }
 }
 
 impl BigRat {
